@@ -12,7 +12,7 @@ THEOREMS = ["C13_lexeme_unaffected_by_insertion", "C13_blank_insertion_same_lexe
 MODELS = ("run",)
 RULE = ("random packet programs (lib/progs.py: every builder, tunnels, time jumps, stored packets) plus hand-written "
         "multi-line ones, and failing programs derived from them (lex, parse, name, type, import, reassign, runtime "
-        "errors, calls with 2..5 undeclared / duplicated / misordered named arguments, inserted after some packets were "
+        "errors, calls with 2..5 undeclared and/or 2..4 ill-typed and/or duplicated / misordered named arguments, inserted after some packets were "
         "emitted); files that END in an unfinished lexer or parser state (pending string literal, open call, `let x =`, "
         "`import`, unterminated string, ...); expression statements whose value is discarded, for every kind of "
         "value (bool, integers, string, address, socket, every class of object, function, method, constants), so that the "
@@ -364,24 +364,36 @@ FAILERS = {
 
 
 BOGUS_NAMES = ["sendack", "fragoff", "zzz", "ttl9", "bogus", "frag_of", "qq", "win_dow", "Seq", "raw_", "a", "b", "c", "d"]
-NAMED_CALLS = [("let na_t = ipv4::tcp::flow(1.2.3.4:1, 1.2.3.5:2);", "na_t.client_message(%s\"hello\");", ["send_ack", "seq", "ack"]),
-               ("let na_u = ipv4::udp::flow(1.2.3.4:1, 1.2.3.5:2);", "na_u.client_dgram(%s\"hello\");", ["frag_off", "csum"]),
-               ("", "ipv4::datagram(1.2.3.4, 1.2.3.5, %s\"hello\");", ["id", "evil", "df", "mf", "ttl", "frag_off", "proto"]),
-               ("", "ipv4::tcp::flow(1.2.3.4:1, 1.2.3.5:2, %s);", ["cl_seq", "sv_seq", "raw"]),
-               ("", "dns::host(1.2.3.4, \"example.com\", %s);", ["ttl", "ns", "raw"])]
+# (setup, call with %s for the named arguments, declared optional arguments with their types)
+NAMED_CALLS = [("let na_t = ipv4::tcp::flow(1.2.3.4:1, 1.2.3.5:2);", "na_t.client_message(%s\"hello\");",
+                [("send_ack", "Bool"), ("frag_off", "U16")]),
+               ("let na_u = ipv4::udp::flow(1.2.3.4:1, 1.2.3.5:2);", "na_u.client_dgram(%s\"hello\");", [("frag_off", "U16"), ("csum", "Bool")]),
+               ("", "ipv4::datagram(1.2.3.4, 1.2.3.5, %s\"hello\");",
+                [("id", "U16"), ("evil", "Bool"), ("df", "Bool"), ("mf", "Bool"), ("ttl", "U8"), ("frag_off", "U16"), ("proto", "U8")]),
+               ("", "ipv4::tcp::flow(1.2.3.4:1, 1.2.3.5:2, %s);", [("cl_seq", "U32"), ("sv_seq", "U32"), ("raw", "Bool")]),
+               ("", "dns::host(1.2.3.4, \"example.com\", %s);", [("ttl", "U32"), ("ns", "Ip4"), ("raw", "Bool")])]
+WELL_TYPED = {"Bool": ["true", "false"], "U8": ["1", "200"], "U16": ["1", "40000"], "U32": ["1", "70000"], "Ip4": ["9.9.9.9"]}
+ILL_TYPED = {"Bool": ["\"yes\"", "1.2.3.4", "1.2.3.4:5"], "U8": ["\"none\"", "1.2.3.4"], "U16": ["\"none\"", "1.2.3.4", "1.2.3.4:5"],
+             "U32": ["\"none\"", "1.2.3.4"], "Ip4": ["\"addr\"", "true", "1.2.3.4:5"]}
 
 
 def bad_named_call(r):
-    """a call with 2..5 undeclared argument names, possibly also duplicated or misordered declared ones"""
-    setup, call, declared = r.choice(NAMED_CALLS)
-    names = r.sample(BOGUS_NAMES, r.randint(2, 5))
-    args = ["%s: %s" % (n, r.choice(["1", "false", "\"v\"", "1.2.3.4"])) for n in names]
+    """a call whose by-name arguments are wrong in several ways at once: 2..5 undeclared names, and/or 2..4 declared names
+    with a value of the wrong type, and/or a declared name twice, in random order (declared ones possibly misordered)"""
+    setup, call, declared = r.choice([c for c in NAMED_CALLS])
+    mode = r.choice(["undeclared", "undeclared", "ill-typed", "ill-typed", "mixed", "mixed"])
+    args = []
+    if mode in ("undeclared", "mixed"):
+        args += ["%s: %s" % (n, r.choice(["1", "false", "\"v\"", "1.2.3.4"])) for n in r.sample(BOGUS_NAMES, r.randint(2, 5))]
+    if mode in ("ill-typed", "mixed"):
+        k = min(len(declared), r.randint(2, 4))
+        args += ["%s: %s" % (n, r.choice(ILL_TYPED[t])) for n, t in r.sample(declared, k)]
     k = r.random()
-    if k < 0.3:                                   # a declared name twice as well
-        d = r.choice(declared)
-        args += ["%s: 1" % d, "%s: 2" % d]
-    elif k < 0.6:                                 # declared names, misordered, among the undeclared ones
-        args += ["%s: 1" % d for d in r.sample(declared, min(2, len(declared)))]
+    if k < 0.25:                                  # a declared name twice as well
+        n, t = r.choice(declared)
+        args += ["%s: %s" % (n, r.choice(WELL_TYPED[t])), "%s: %s" % (n, r.choice(WELL_TYPED[t] + ILL_TYPED[t]))]
+    elif k < 0.5 and mode == "undeclared":        # well-typed declared names, misordered, among the undeclared ones
+        args += ["%s: %s" % (n, r.choice(WELL_TYPED[t])) for n, t in r.sample(declared, min(2, len(declared)))]
     r.shuffle(args)
     body = ", ".join(args) + ", "
     if call.endswith("%s);"):
@@ -390,7 +402,7 @@ def bad_named_call(r):
 
 
 def make_failing(r, text):
-    kind = r.choice(list(FAILERS) + ["named", "named"])
+    kind = r.choice(list(FAILERS) + ["named", "named", "named"])
     L = text[:-1].split("\n")
     nimp = sum(1 for l in L if l.startswith("import "))
     i = r.randint(nimp, len(L))
@@ -458,11 +470,11 @@ def sha(b):
 DIAG = re.compile(r"^(?P<l>\d+):(?P<c>\d+): (?P<what>error|warning): (?P<m>.*)$")
 
 
-def invoke(inputs, outs=None, outdir=None, cwd=None, env=None, keep=False, color=True, timeout=120):
+def invoke(inputs, outs=None, outdir=None, cwd=None, env=None, keep=False, color=True, timeout=120, stdout_file=None):
     """inputs: list of (path as given on the command line, absolute input path, absolute output path).
     Returns (rc, [per-input dict], raw stdout).  Per input: status ok/err/none, kind, loc, nwarn, lines (normalised),
     sha (of the output file, None when absent)."""
-    args = [common.RESYNTH] + (["--color", "never"] if color else []) + (["-k"] if keep else [])
+    args = [common.RESYNTH] + (["--color", color] if isinstance(color, str) else ["--color", "never"] if color else []) + (["-k"] if keep else [])
     if outs is not None:
         for o in outs:
             args += ["-o", o]
@@ -475,8 +487,13 @@ def invoke(inputs, outs=None, outdir=None, cwd=None, env=None, keep=False, color
         except OSError:
             pass
     try:
-        p = subprocess.run(args, cwd=cwd, env=env, stdout=subprocess.PIPE, stderr=subprocess.PIPE, timeout=timeout)
-        rc, so, se = p.returncode, p.stdout.decode("utf-8", "replace"), p.stderr.decode("utf-8", "replace")
+        if stdout_file:
+            with open(stdout_file, "wb") as fh:
+                p = subprocess.run(args, cwd=cwd, env=env, stdout=fh, stderr=subprocess.PIPE, timeout=timeout)
+            rc, so, se = p.returncode, open(stdout_file, "rb").read().decode("utf-8", "replace"), p.stderr.decode("utf-8", "replace")
+        else:
+            p = subprocess.run(args, cwd=cwd, env=env, stdout=subprocess.PIPE, stderr=subprocess.PIPE, timeout=timeout)
+            rc, so, se = p.returncode, p.stdout.decode("utf-8", "replace"), p.stderr.decode("utf-8", "replace")
     except subprocess.TimeoutExpired as e:
         rc, so, se = -999, (e.stdout or b"").decode("utf-8", "replace"), "timeout"
     lines = so.splitlines()
@@ -642,7 +659,32 @@ def perturbations(ctx, d, shim):
             return invoke(ins, outdir=od, cwd=od, env=e)
         return f
 
-    P = [("env", "TZ, LANG, LC_ALL, HOME, PATH, TMPDIR and 16 junk variables (RESYNTH_DEBUG, RUST_LOG, SOURCE_DATE_EPOCH, ..) set; "
+    def coloured(tag, opt, envmod, to_file):
+        def f(ps):
+            od = mk(os.path.join(d, "out_" + tag))
+            e = {k: v for k, v in base_env().items() if k not in ("TERM", "NO_COLOR", "CLICOLOR", "CLICOLOR_FORCE", "COLORTERM")}
+            e.update(envmod)
+            ins = [(os.path.join(sd, p["name"] + ".rsyn"),) * 2 + (os.path.join(od, p["name"] + ".pcap"),) for p in ps]
+            return invoke(ins, outdir=od, cwd=od, env=e, color=opt, stdout_file=os.path.join(d, "stdout-%s.txt" % tag) if to_file else None)
+        return f
+
+    COL = []
+    for ci, (ename, envmod) in enumerate([("TERM=xterm-256color", {"TERM": "xterm-256color"}), ("TERM=dumb", {"TERM": "dumb"}), ("TERM unset", {}),
+                                          ("TERM=xterm NO_COLOR=1", {"TERM": "xterm", "NO_COLOR": "1"}),
+                                          ("TERM=xterm CLICOLOR_FORCE=1 COLORTERM=truecolor", {"TERM": "xterm", "CLICOLOR_FORCE": "1", "COLORTERM": "truecolor"})]):
+        opt = False if ci % 2 == 0 else "auto"
+        to_file = ci % 2 == 1
+        COL.append(("colour:%s,%s,%s" % (ename, "no --color option" if opt is False else "--color auto", "stdout to a file" if to_file else "stdout to a pipe"),
+                    "%s, %s, stdout captured %s (not a terminal)" % (ename, "no --color option (default auto)" if opt is False else "--color auto",
+                                                                      "in a file" if to_file else "through a pipe"),
+                    coloured("col%d" % ci, opt, envmod, to_file)))
+    # the other combination of option and capture for the two decisive environments
+    COL.append(("colour:TERM=xterm-256color,--color auto,stdout to a file", "TERM=xterm-256color, --color auto, stdout captured in a file (not a terminal)",
+                coloured("col5", "auto", {"TERM": "xterm-256color"}, True)))
+    COL.append(("colour:TERM=dumb,--color auto,stdout to a pipe", "TERM=dumb, --color auto, stdout captured through a pipe (not a terminal)",
+                coloured("col6", "auto", {"TERM": "dumb"}, False)))
+
+    P = COL + [("env", "TZ, LANG, LC_ALL, HOME, PATH, TMPDIR and 16 junk variables (RESYNTH_DEBUG, RUST_LOG, SOURCE_DATE_EPOCH, ..) set; "
                  "default --color", envvars),
          ("cwd-relative-paths", "run from another directory with relative input paths and a relative --out-dir", cwd_rel),
          ("explicit-output-names", "-o <other dir>/renamed-NNN.capture per input, cwd=/", explicit_o)]
@@ -670,6 +712,11 @@ def ambient(ctx, d, ps, shim, chunk=24):
             part = ps[i:i + chunk]
             rc, res, so = f(part)
             b0 = base[part[0]["name"]]
+            if "\x1b" in so:
+                ctx.fail("ambient:" + name.split(":")[0] + ":escape-sequences", "stdout is not a terminal but contains ANSI escape sequences under: %s (%r)"
+                         % (desc, so[max(0, so.index("\x1b") - 30):so.index("\x1b") + 30]),
+                         {"programs": {p["name"]: p["text"] for p in part}, "order": [p["name"] for p in part], "perturbation": desc,
+                          "class_hint": "ambient", "how": "compile the programs with stdout redirected, under the environment described"})
             if rc != b0["rc_batch"] or res[0]["_norm_all"] != b0["_norm_all"]:
                 why = "exit status %s vs %s" % (b0["rc_batch"], rc) if rc != b0["rc_batch"] else first_diff(b0["_norm_all"], res[0]["_norm_all"])
                 ctx.fail("ambient:" + name, "a batch of %d inputs prints something else under: %s (%s)" % (len(part), desc, why),
